@@ -256,3 +256,54 @@ Proof. reflexivity. Qed.
 (* overlapping children are rejected by the certificate and make apply duplicate or fail *)
 Example overlap_rejected : wf_b 6 (MR 0 4 None [] [MR 0 3 (Some 1) [] []; MR 2 4 (Some 1) [] []]) = false.
 Proof. reflexivity. Qed.
+
+(* ---- root_parse keeps every token exactly once, in order *)
+Lemma seq3 a b c : a <= b -> b <= c -> seq 0 a ++ seq a (b - a) ++ seq b (c - b) = seq 0 c.
+Proof.
+  intros H1 H2. replace (seq 0 a) with (seq 0 (a - 0)) by (f_equal; lia).
+  rewrite app_assoc, (seq_split 0 a b) by lia. rewrite (seq_split 0 b c) by lia. f_equal. lia.
+Qed.
+
+Lemma first_code_off_le is_code a cnt : forall off, first_code_off is_code a cnt off <= off + cnt.
+Proof.
+  induction cnt as [|c IH]; intros off; [cbn [first_code_off]; lia|].
+  destruct c as [|c'].
+  - cbn [first_code_off]. destruct (is_code (a + off)); lia.
+  - change (first_code_off is_code a (S (S c')) off) with (if is_code (a + off) then off else first_code_off is_code a (S c') (S off)).
+    destruct (is_code (a + off)); [lia|]. specialize (IH (S off)). lia.
+Qed.
+
+Theorem root_parse_lossless n is_code m t :
+  start_idx n is_code <= end_idx n is_code -> end_idx n is_code <= n ->
+  (truthy m = true -> wf_b n m = true /\ mstart m = start_idx n is_code /\ mstop m <= end_idx n is_code) ->
+  root_parse n is_code m = Ok t -> tokens_of t = seq 0 n.
+Proof.
+  intros Hse Hen Hm. unfold root_parse. set (s := start_idx n is_code) in *. set (e := end_idx n is_code) in *.
+  destruct (s =? e) eqn:Ese.
+  - intros H. inversion H; subst. rewrite tokens_of_node, tokens_toks. reflexivity.
+  - apply Nat.eqb_neq in Ese. destruct (apply n m) as [matched|er] eqn:Eap; [|discriminate].
+    intros H. inversion H; subst. clear H. rewrite tokens_of_node, !tokens_app, !tokens_toks.
+    destruct (truthy m) eqn:Et; cbn [negb].
+    + destruct (Hm eq_refl) as [Hwf [Hs He]].
+      destruct (apply_lossless n m Hwf) as [ts [Eap' Htok]]. rewrite Eap in Eap'. inversion Eap'; subst ts. clear Eap'.
+      unfold mlen in Htok. rewrite Hs in Htok.
+      assert (Hsm : s <= mstop m).
+      { destruct m as [ms me c ins ch]. cbn [mstart mstop] in *. cbn [wf_b] in Hwf. subst ms.
+        destruct (me - s =? 0) eqn:Ez.
+        - apply andb_true_iff in Hwf as [Hwf _]. apply andb_true_iff in Hwf as [Hwf _]. apply andb_true_iff in Hwf as [Hwf _].
+          apply andb_true_iff in Hwf as [Hwf _]. apply Nat.leb_le in Hwf. exact Hwf.
+        - apply Nat.eqb_neq in Ez. lia. }
+      destruct (mstop m <? e) eqn:El.
+      * apply Nat.ltb_lt in El. rewrite !tokens_app, Htok, tokens_toks.
+        unfold tokens_of_l at 1. cbn [flat_map]. rewrite app_nil_r, tokens_of_node, tokens_toks.
+        set (k := first_code_off is_code (mstop m) (e - mstop m) 0).
+        assert (Hk : k <= e - mstop m) by (unfold k; pose proof (first_code_off_le is_code (mstop m) (e - mstop m) 0); lia).
+        rewrite <- !app_assoc.
+        rewrite (app_assoc (seq (mstop m) k)).
+        replace (seq (mstop m) k ++ seq (mstop m + k) (e - (mstop m + k))) with (seq (mstop m) (e - mstop m))
+          by (replace (e - mstop m) with (k + (e - (mstop m + k))) by lia; apply seq_app).
+        rewrite (app_assoc (seq s (mstop m - s))), (seq_split s (mstop m) e) by lia. apply seq3; lia.
+      * apply Nat.ltb_ge in El. assert (mstop m = e) by lia. rewrite !tokens_app, Htok, tokens_toks. rewrite H. rewrite Nat.sub_diag. cbn [seq]. rewrite app_nil_r.
+        apply seq3; lia.
+    + unfold tokens_of_l. cbn [flat_map]. rewrite app_nil_r, tokens_of_node. fold (tokens_of_l (toks s (e - s))). rewrite tokens_toks. apply seq3; lia.
+Qed.
